@@ -56,8 +56,8 @@ Proof.
   split; [|exact EH].
   r_inv E.
   apply seg_append_ok in Hr as (x & Ex & ->). apply seg_append_ok in Hq0 as (y & Ey & ->). injection Ey as <-.
-  unfold ak2_997. rewrite Ex. destruct (tn_ctl n) as [c|]; [|discriminate]. injection Hr0 as <-.
-  unl. rewrite parse_AK2 in Hk. exact Hk.
+  unfold ak2_997. rewrite Ex. destruct (tn_ctl n) as [c|]; injection Hr0 as <-;
+  unl; rewrite parse_AK2 in Hk; exact Hk.
 Qed.
 
 Definition at_ {A B} (heap : list A) (i : nat) (F : A -> list B) : list B :=
